@@ -3,6 +3,7 @@ LEVELS = {
     'C01': 'other',
     'C03': 'other',
     'C07': 'other',
+    'C10': 'other',
     'C12': 'other',
     'C24': 'other',
     'C22': 'other',
@@ -12,6 +13,7 @@ LEVELS = {
     'C28': 'proof',
 }
 EXPLAIN = {
+    'C10': 'BOUNDED stand-in, conditional on the flat-combining kernel (C23 assumed): the container code a combiner pass runs — the real fc_process/collide/collide_move and fc_apply of FCDeque — over every batch of <= 3 symbolic requests and every initial deque of <= 3 elements: records complete only in (push, pop) pairs with the pushed value, opposite-end pairs only on an empty deque, the elimination pass never touches the deque, and the whole batch equals a sequential execution on a reference deque (pairs first, then list order).',
     'C07': 'BOUNDED stand-in, per-call obligations under interference (not a linearizability proof): enqueue_with / dequeue_with / front / empty of the real Vyukov queue run against a state that contains in-flight enqueues and dequeues of other threads in every cell, with positions fully symbolic; the calling thread must claim only free (resp. published) cells, publish/release exactly the cell it claimed, and report full/empty only if the queue was full/empty at an instant during the call; the representation invariant is preserved.',
     'C24': 'Modular check over the queue CONTRACT (C07 assumed): allocate/deallocate/preallocate of the three real pool classes and pool_allocator run against a ghost free list and ghost heap with other holders interleaving; every object is always in exactly one place (free list, heap, caller, other holder), allocate hands out an object nobody else holds, deallocate makes it available again exactly once. Push-retry loops bounded.',
     'C12': 'BOUNDED stand-in with fully symbolic counters: each producer/consumer function of the real WeakRingBuffer (typed and <void>) is checked as one side of the SPSC pair while the environment lets the other side progress before every atomic access: success exactly when space/elements suffice (against a counter value read during the call), elements stored/returned in order at the right positions, no unread cell or byte ever overwritten, records contiguous with exact size headers, tail markers skipped exactly once.',
